@@ -38,7 +38,7 @@ TOL = 1e-11
 
 
 def BOUNDS(tier):
-    return {"members": "ref, strip, block, distorted, curved, renum, ring (thin half ring / tube), aniso(thorough)", "transforms": "none, affine, rigid, length units x 1e-3 / x 1e3 (on distorted)",
+    return {"members": "ref, strip, block, distorted, curved, renum, ring (thin half ring / tube), aniso(thorough)", "transforms": "none, affine, rigid, length units x 1e-6 / x 1e-3 / x 1e3 (on distorted, curved)",
             "masks": "2*dim planes, C(2*dim,2) unions, all, none, one face", "flags": "only_surface x ensure_3d"}
 
 
@@ -48,7 +48,7 @@ def plan(tier, seed):
         mem = ["ref", "strip", "block", "distorted", "renum"] + (["curved"] if kind in zoo.QUADRATIC else []) + (["aniso"] if tier == "thorough" else [])
         for m in mem + ["ring"]:
             cases.append(dict(key=f"{kind}/{m}/none", kind=kind, member=m, tf="none", seed=seed, cost=10 if kind.startswith("hex") else 1))
-        for tf in ("affine", "rigid", "mm", "km"):
+        for tf in ("affine", "rigid", "mm", "km", "um"):
             for m in ("distorted",) + (("curved",) if kind in zoo.QUADRATIC else ()):
                 cases.append(dict(key=f"{kind}/{m}/{tf}", kind=kind, member=m, tf=tf, seed=seed, cost=10 if kind.startswith("hex") else 1))
     # fine meshes (the mask / face selection works on index arrays whose size decides which algorithm numpy picks)
@@ -149,8 +149,8 @@ def build(case):
     elif tf == "rigid":
         Q = zoo.generic_rotations(seed, 1)[0] if dim == 3 else zoo.rot2(0.7 + zoo.offs(seed, 2))
         X = X @ Q.T + np.arange(1, dim + 1) * 0.3
-    elif tf in ("mm", "km"):  # the same body in other length units
-        X = X * (1e-3 if tf == "mm" else 1e3)
+    elif tf in ("mm", "km", "um"):  # the same body in other length units (um: face areas of 1e-13 and below)
+        X = X * {"mm": 1e-3, "km": 1e3, "um": 1e-6}[tf]
     mesh = fem.Mesh(X, mesh.cells, mesh.cell_type)
     return mesh, twin
 
